@@ -107,7 +107,7 @@ fn run_crash(scn: &Scenario, prop: &str, explore: bool) -> RunResult {
                 }
                 v
             } else {
-                crash::sample_process(&seg.log, &mut r, per_seg, all, false)
+                crash::sample_process(&seg.log, &mut r, per_seg, all, true)
             };
             let start = seg_start_model(&w, si);
             for spec in specs {
